@@ -366,11 +366,20 @@ fn split_words(s: &str) -> Vec<String> {
     let mut cur = String::new();
     let mut in_word = false;
     let mut quote: Option<char> = None;
+    let mut escaped = false;
     for c in s.chars() {
+        if escaped {
+            cur.push(c);
+            in_word = true;
+            escaped = false;
+            continue;
+        }
         match quote {
             Some(q) if c == q => quote = None,
+            Some('"') if c == '\\' => escaped = true,
             Some(_) => cur.push(c),
             None => match c {
+                '\\' => escaped = true,
                 '\'' | '"' => {
                     quote = Some(c);
                     in_word = true;
@@ -1154,12 +1163,16 @@ pub fn explicit_cells(seed: u64) -> Vec<Scenario> {
     let lines = gen::generate(&mut rng, &gp);
     let diff = gen::to_bytes(&lines);
     let tokens = body_tokens(&lines);
-    let pg = |code: i32| PagerSetup { names: vec!["less".into(), "mypager".into(), "more".into(), "most".into(), "otherpager".into()], mode: "gate".into(), exit_code: code, less_version: "less 581.2 (PCRE2 regular expressions)".into() };
+    let pg = |code: i32| PagerSetup { names: vec!["less".into(), "mypager".into(), "more".into(), "most".into(), "otherpager".into(), "my pager".into()], mode: "gate".into(), exit_code: code, less_version: "less 581.2 (PCRE2 regular expressions)".into() };
     // A. pager selection
-    let values: &[(&str, &str)] = &[("other-arg-named-delta", "mypager --log /x/delta.log"), ("other-arg-word-delta", "otherpager delta"), ("less-arg-named-delta", "less --log-file=/x/delta"), ("other-quoted-args", "mypager --opt 'x y' \"-z\""), ("less-quoted-args", "less '-F' \"-X\""), ("less-bare", "less"), ("less-args", "less -FX"), ("less-fullpath", "@BIN@/less"), ("less-fullpath-args", "@BIN@/less -X"), ("other", "mypager"), ("other-args", "mypager --opt x"), ("other-fullpath", "@BIN@/otherpager"), ("more", "more"), ("most", "most"), ("missing", "nosuchpager")];
+    let values: &[(&str, &str)] = &[("other-arg-named-delta", "mypager --log /x/delta.log"), ("other-arg-word-delta", "otherpager delta"), ("less-arg-named-delta", "less --log-file=/x/delta"), ("other-several-blanks", "mypager    --opt   x "), ("other-path-with-blank-quoted", "'@BIN@/my pager' --opt x"), ("other-path-with-blank-escaped", "@BIN@/my\\ pager"), ("less-fullpath-quoted", "\"@BIN@/less\""), ("other-quoted-args", "mypager --opt 'x y' \"-z\""), ("less-quoted-args", "less '-F' \"-X\""), ("less-bare", "less"), ("less-args", "less -FX"), ("less-fullpath", "@BIN@/less"), ("less-fullpath-args", "@BIN@/less -X"), ("other", "mypager"), ("other-args", "mypager --opt x"), ("other-fullpath", "@BIN@/otherpager"), ("more", "more"), ("most", "most"), ("missing", "nosuchpager")];
     for source in ["--pager", "delta.pager", "DELTA_PAGER", "BAT_PAGER", "PAGER", "default"] {
         for (vclass, value) in values {
             if source == "default" && *vclass != "less-bare" {
+                continue;
+            }
+            // a backslash in a git config value is an escape character of that file format
+            if source == "delta.pager" && value.contains('\\') {
                 continue;
             }
             for paging in ["always", "auto"] {
